@@ -151,6 +151,35 @@ func newImage(kind string, r image.Rectangle, margin, seed int) (img image.Image
 		fillBytes(m.Cr, seed+2)
 		parent, planes = m, func() [][]uint8 { return [][]uint8{m.Y, m.Cb, m.Cr} }
 	}
+	if seed == 3 {
+		// fully opaque variant
+		switch m := parent.(type) {
+		case *image.RGBA64:
+			for i := 0; i+7 < len(m.Pix); i += 8 {
+				m.Pix[i+6], m.Pix[i+7] = 255, 255
+			}
+		case *image.NRGBA64:
+			for i := 0; i+7 < len(m.Pix); i += 8 {
+				m.Pix[i+6], m.Pix[i+7] = 255, 255
+			}
+		case *image.RGBA:
+			for i := 0; i+3 < len(m.Pix); i += 4 {
+				m.Pix[i+3] = 255
+			}
+		case *image.NRGBA:
+			for i := 0; i+3 < len(m.Pix); i += 4 {
+				m.Pix[i+3] = 255
+			}
+		case *image.Alpha:
+			for i := range m.Pix {
+				m.Pix[i] = 255
+			}
+		case *image.NYCbCrA:
+			for i := range m.A {
+				m.A[i] = 255
+			}
+		}
+	}
 	img = parent
 	if margin > 0 {
 		img = parent.(subImager).SubImage(r)
